@@ -98,18 +98,19 @@ func (h *histRunner) rx(raw []byte, tag string) {
 		datr = "SF6BW999"
 	}
 	rssi := int32(-h.rng.Intn(130))
+	snr8 := h.rng.Intn(281) - 160 // -20 dB .. +15 dB in eighths
 	ch := uint8(h.rng.Intn(8))
 	clock := h.rng.Uint32()
 	pkt := server.GatewayPacket{
 		RawMessage: append([]byte{}, raw...),
-		Radio:      server.RadioContext{Channel: ch, RFChain: 0, Frequency: 868.1, DataRate: datr, Band: eu868, RSSI: rssi, SNR: 7.5},
+		Radio:      server.RadioContext{Channel: ch, RFChain: 0, Frequency: 868.1, DataRate: datr, Band: eu868, RSSI: rssi, SNR: float32(snr8) / 8},
 		Gateway:    server.GatewayContext{GatewayEUI: eui64(gw), GatewayHost: "127.0.0.1", GatewayPort: 1700, GatewayClock: clock, ProtocolVersion: 2},
 		ReceivedAt: time.Unix(0, 1600000000000000000+h.ts),
 	}
 	h.w.inject(pkt)
 	if !h.w.quiesce() {
 		h.obs = append(h.obs, "HUNG")
-		h.events = append(h.events, fmt.Sprintf("R,%s,%x,%d,%s,%d,%d,%d,,0", hx(raw), gw, h.ts, datr, rssi, ch, clock))
+		h.events = append(h.events, fmt.Sprintf("R,%s,%x,%d,%s,%d/%d,%d,%d,,0", hx(raw), gw, h.ts, datr, rssi, snr8, ch, clock))
 		return
 	}
 	downs, pubs, _ := h.w.collect()
@@ -143,7 +144,7 @@ func (h *histRunner) rx(raw []byte, tag string) {
 			uint64(p.FrameContext.GatewayContext.Gateway.GatewayEUI.ToInt64())))
 	}
 	sort.Strings(pl)
-	h.events = append(h.events, fmt.Sprintf("R,%s,%x,%d,%s,%d,%d,%d,%s,%x", hx(raw), gw, h.ts, datr, rssi, ch, clock, appnonce, newaddr))
+	h.events = append(h.events, fmt.Sprintf("R,%s,%x,%d,%s,%d/%d,%d,%d,%s,%x", hx(raw), gw, h.ts, datr, rssi, snr8, ch, clock, appnonce, newaddr))
 	h.obs = append(h.obs, "D["+strings.Join(dl, ";")+"] P["+strings.Join(pl, ";")+"] "+h.dumpAll())
 	h.tags[tag]++
 }
@@ -156,11 +157,12 @@ func (h *histRunner) rxCrash(raw []byte, crashAt int, fails []int, tag string) {
 	gw := h.gws[h.rng.Intn(len(h.gws))]
 	datr := datrs[h.rng.Intn(len(datrs))]
 	rssi := int32(-h.rng.Intn(130))
+	snr8 := h.rng.Intn(281) - 160 // -20 dB .. +15 dB in eighths
 	ch := uint8(h.rng.Intn(8))
 	clock := h.rng.Uint32()
 	pkt := server.GatewayPacket{
 		RawMessage: append([]byte{}, raw...),
-		Radio:      server.RadioContext{Channel: ch, RFChain: 0, Frequency: 868.1, DataRate: datr, Band: eu868, RSSI: rssi, SNR: 7.5},
+		Radio:      server.RadioContext{Channel: ch, RFChain: 0, Frequency: 868.1, DataRate: datr, Band: eu868, RSSI: rssi, SNR: float32(snr8) / 8},
 		Gateway:    server.GatewayContext{GatewayEUI: eui64(gw), GatewayHost: "127.0.0.1", GatewayPort: 1700, GatewayClock: clock, ProtocolVersion: 2},
 		ReceivedAt: time.Unix(0, 1600000000000000000+h.ts),
 	}
@@ -173,7 +175,7 @@ func (h *histRunner) rxCrash(raw []byte, crashAt int, fails []int, tag string) {
 	trace, status := h.w.runStepped(pkt, crashAt, fm)
 	if status == "HUNG" {
 		h.obs = append(h.obs, "HUNG")
-		h.events = append(h.events, fmt.Sprintf("X,%s,%x,%d,%s,%d,%d,%d,,0,%d,%s", hx(raw), gw, h.ts, datr, rssi, ch, clock, crashAt, strings.Join(fs, "+")))
+		h.events = append(h.events, fmt.Sprintf("X,%s,%x,%d,%s,%d/%d,%d,%d,,0,%d,%s", hx(raw), gw, h.ts, datr, rssi, snr8, ch, clock, crashAt, strings.Join(fs, "+")))
 		return
 	}
 	if crashAt < 0 {
@@ -220,7 +222,7 @@ func (h *histRunner) rxCrash(raw []byte, crashAt int, fails []int, tag string) {
 			h.w.watchApp(a)
 		}
 	}
-	h.events = append(h.events, fmt.Sprintf("X,%s,%x,%d,%s,%d,%d,%d,%s,%x,%d,%s", hx(raw), gw, h.ts, datr, rssi, ch, clock, appnonce, newaddr, crashAt, strings.Join(fs, "+")))
+	h.events = append(h.events, fmt.Sprintf("X,%s,%x,%d,%s,%d/%d,%d,%d,%s,%x,%d,%s", hx(raw), gw, h.ts, datr, rssi, snr8, ch, clock, appnonce, newaddr, crashAt, strings.Join(fs, "+")))
 	h.obs = append(h.obs, "D["+strings.Join(dl, ";")+"] P[] "+h.dumpAll()+" ; trace{"+strings.Join(trace, ",")+"}")
 	h.tags[tag]++
 }
@@ -346,10 +348,11 @@ func runHistory(rng *rand.Rand, prof histProfile, w *Writer, suite string) {
 			d.joined = true
 			state = model.OverTheAirDevice
 		}
-		if share && i > 0 && h.devs[0].joined && d.joined {
-			d.addr = h.devs[0].addr
-			if rng.Intn(2) == 0 {
-				d.nwk = h.devs[0].nwk // same key: both verify
+		if share && i > 0 && d.joined {
+			o := h.devs[rng.Intn(i)] // any earlier device, also one that has no session yet (address 0, empty keys)
+			d.addr = o.addr
+			if o.joined && rng.Intn(2) == 0 {
+				d.nwk = o.nwk // same key: both verify
 			}
 		}
 		md := mkDevice(d.eui, d.appeui, d.addr, d.appkey, d.nwk, d.app, d.fup0, d.fdn0, d.relaxed, state)
